@@ -12,7 +12,7 @@ from props import c05
 
 PID = "C18"
 
-def alias_write(dims, V, rng, op=None, dst=None, src=None, na=False, keep=False, rk=None, perfect=False):
+def alias_write(dims, V, rng, op=None, dst=None, src=None, na=False, keep=False, rk=None, perfect=False, ops=None):
     rank1 = len(dims) == 1
     if dst is None:
         dst = []
@@ -30,9 +30,9 @@ def alias_write(dims, V, rng, op=None, dst=None, src=None, na=False, keep=False,
         return [G.range_with_ext(n, e, rng, rank1) for n, e in zip(dims, exts)]
     src = src or other()
     src2 = other() if rk == "b" else None
-    op = op or rng.choice(G.OPS)
+    op = op or rng.choice(ops or G.OPS)
     if rk == "s":
-        return G.write_txt(op + ("n" if na else "") + ("k" if keep else ""), "s", rng.choice([2, 3, -1]), dst)
+        return G.write_txt(op + ("n" if na else "") + ("k" if keep else ""), "s", rng.choice([2, 4, -2]) if op == "div" else rng.choice([2, 3, -1]), dst)
     return G.write_txt(op + ("n" if na else "") + ("k" if keep else ""), rk, rng.choice([2, 3, -1, 5]), dst, src, src2)
 
 def scripts(dims, V, rng, quick):
@@ -107,7 +107,60 @@ def sym_groups(tier, seed):
             calls = ['VWF(Sym%d, %s, %s, %s, "%s");' % (sz, c05.tup(rd), c05.tup(dims), fs, s) for s in sc]
             groups.append({"key": "%s/sz%d/vea%d/%s" % (isa, sz, vea, name), "header": "view_write_sym.h", "isa": isa, "opt": "-O0",
                            "defs": ["-DFASTOR_USE_VECTORISED_EXPR_ASSIGN"] if vea else [], "calls": calls})
-    return groups
+    return c05.only_filter(groups)
+
+def real_groups(tier, seed):
+    """overlap patterns on the real element types, all five operators, guarded or exactly coinciding cases judged"""
+    rng = random.Random(seed * 7727 + 3)
+    quick = tier == "quick"
+    isas = core.QUICK_ISAS if quick else core.ALL_ISAS
+    groups = []
+    ci = 0
+    G.REVERSED_P[0] = 0.1
+    try:
+        for isa in isas:
+            for (t, sz) in c05.REAL_TYPES:
+                ci += 1
+                V = G.vwidth(isa, sz)
+                for which in ([("a1", "a2", "a3")[(ci + seed) % 3]] if quick else ["a1", "a2", "a3"]):
+                    for vea in ([(ci + seed) % 2] if quick else [0, 1]):
+                        dims = shapes(V, which)
+                        r2 = random.Random(rng.random())
+                        sc = []
+                        for k in range(120 if quick else 1200):
+                            na = r2.random() < 0.7
+                            ws = [alias_write(dims, V, r2, na=na, perfect=(not na and r2.random() < 0.6), ops=G.OPS5)]
+                            if r2.random() < 0.3:
+                                dstr = [tuple(int(x) for x in ax.split("_")) for ax in ws[0].split(".")[3].split(",")]
+                                for _ in range(r2.randint(1, 2)):
+                                    ws.append(alias_write(dims, V, r2, dst=dstr, na=r2.random() < 0.5, keep=True, rk=r2.choice("aasb"), ops=G.OPS5))
+                            sc.append("/".join(ws))
+                        rd = tuple(1 for _ in dims)
+                        calls = ['VWR(%s, %s, %s, %du, "%s");' % (t, c05.tup(rd), c05.tup(dims), seed * 1000 + k, s) for k, s in enumerate(sc)]
+                        groups.append({"key": "real/%s/%s/vea%d/%s" % (isa, t, vea, which), "header": "view_write_real.h", "isa": isa, "opt": "-O2",
+                                       "defs": ["-ffp-contract=off"] + (["-DFASTOR_USE_VECTORISED_EXPR_ASSIGN"] if vea else []), "pre": "", "calls": calls})
+                # a fixed view with the flag on real types: every other cell
+                if not quick or (ci + seed) % 2 == 0:
+                    fam = [("g1", (2 * V + 3,), [(1, V + 2, 1)], 0), ("g2", (4, V + 3), [(1, 4, 2), (1, V + 2, 1)], 1),
+                           ("g1s", (2 * V + 5,), [(0, -1, 2)], 1), ("g2s", (3, 2 * V + 1), [(0, -1, 1), (0, -1, 2)], 0)]
+                    for (name, dims, fseqs, vea) in ([fam[(ci // 2 + seed) % 4]] if quick else fam):
+                        r2 = random.Random(rng.random())
+                        sc = []
+                        for k in range(40 if quick else 300):
+                            ws = [alias_write(dims, V, r2, dst=list(fseqs), na=r2.random() < 0.8, ops=G.OPS5)]
+                            if r2.random() < 0.3:
+                                ws.append(alias_write(dims, V, r2, dst=list(fseqs), na=r2.random() < 0.5, keep=True, rk=r2.choice("aasb"), ops=G.OPS5))
+                            sc.append("/".join(ws))
+                        G.REVERSED_P[0] = 0.0
+                        rd = tuple(G.ext_of(x, n) for x, n in zip(fseqs, dims))
+                        G.REVERSED_P[0] = 0.1
+                        fs = "(" + ", ".join("fseq<%d,%d,%d>" % x for x in fseqs) + ")"
+                        calls = ['VWRF(%s, %s, %s, %s, %du, "%s");' % (t, c05.tup(rd), c05.tup(dims), fs, seed * 1000 + k, s) for k, s in enumerate(sc)]
+                        groups.append({"key": "real/%s/%s/vea%d/%s" % (isa, t, vea, name), "header": "view_write_real.h", "isa": isa, "opt": "-O2",
+                                       "defs": ["-ffp-contract=off"] + (["-DFASTOR_USE_VECTORISED_EXPR_ASSIGN"] if vea else []), "pre": "", "calls": calls})
+    finally:
+        G.REVERSED_P[0] = 0.0
+    return c05.only_filter(groups)
 
 def nontrivial(inp, mo):
     # a case is non-trivial when some write reads the destination tensor (kinds a / b)
@@ -116,7 +169,7 @@ def nontrivial(inp, mo):
 
 def run(tier, seed):
     return flow.standard_run(
-        PID, tier, seed, "Fastor.C18.noalias_snapshot", "FastorModel.Model.ViewAlias", sym_groups, None,
+        PID, tier, seed, "Fastor.C18.noalias_snapshot", "FastorModel.Model.ViewAlias", sym_groups, real_groups,
         assumptions=["vector primitives are lane-wise (property C08)",
                      "index-tensor and boolean-mask views are covered by property C19's machinery, not here; the model records that mask views never test the flag",
                      "ranges have positive steps (seq documents no negative step); FASTOR_NO_ALIAS is not defined"],
